@@ -151,6 +151,24 @@ def c05_r2(ctx):
                     if isinstance(rhs, (ast.Tuple, ast.List, ast.Set)) and all(isinstance(x, ast.Constant) for x in rhs.elts):
                         members = sorted(x.value for x in rhs.elts)
     ctx.check(members == ["include", "skip"], key(pd, "set"), f"directives that make a field optional are {members}", pd.loc(), okmsg="exactly @include/@skip make a field optional")
+    # every directive of the field is looked at: the quantified collection is the `directives` parameter itself (through
+    # comprehensions / locals), never a slice or a filtered part of it
+    pdir = pd.node.args.args[1].arg if len(pd.node.args.args) > 1 else "directives"
+    sources = []
+    for c in walk_no_nested(pd.node):
+        if isinstance(c, ast.Call) and is_name(c.func, "any") and c.args and isinstance(c.args[0], (ast.GeneratorExp, ast.ListComp)):
+            work, hops = [c.args[0].generators[0].iter], 0
+            while work and hops < 8:
+                hops += 1
+                it0 = strip_pre(work.pop())
+                if isinstance(it0, ast.Name) and it0.id in env:
+                    work.append(env[it0.id])
+                elif isinstance(it0, (ast.ListComp, ast.GeneratorExp, ast.SetComp)) and len(it0.generators) == 1 and not it0.generators[0].ifs:
+                    work.append(it0.generators[0].iter)
+                else:
+                    sources.append(norm(it0))
+    ctx.check(sources == [pdir], key(pd, "all directives"), f"the conditional-directive test ranges over {sources}, not over all of `{pdir}`: "
+              "`name @other @include(if: $x)` would stay required although the server may omit it", pd.loc(), okmsg="every directive of the field is examined")
     def mk(cond, already):
         def atom(e):
             t = norm(strip_pre(e))
@@ -182,7 +200,7 @@ def c05_r2(ctx):
     ctx.check(good, key(pf, "directives applied"), "parse_directives is not applied to the field's own directives", pf.loc(), okmsg="field directives applied to its annotation")
 
 
-@rule("C05.R3", "__typename is typed as a Literal of exactly the given type names", min_instances=3, also=["C01"])
+@rule("C05.R3", "__typename is typed as a Literal of exactly the given type names", min_instances=6, also=["C01", "C08"])
 def c05_r3(ctx):
     repo = ctx.repo
     fi = repo.func(RF + "generate_typename_annotation")
@@ -198,6 +216,37 @@ def c05_r3(ctx):
     p = fi.node.args.args[0].arg
     good = len(comps) == 1 and norm(comps[0].generators[0].iter) == f"sorted({p})" and not comps[0].generators[0].ifs and "f'\"{" + norm(comps[0].generators[0].target) + "}\"'" == norm(allargs(comps[0].elt)[0]) if comps and isinstance(comps[0].elt, ast.Call) and allargs(comps[0].elt) else False
     ctx.check(bool(good), key(fi, "values"), "Literal members are not exactly the (quoted) given type names", fi.loc(), okmsg="Literal members = the given type names")
+    # one value -> Literal["A"]; two or more -> Literal["A", "B", ...] (tuple of ALL members): decided for 1, 2 and 3 values
+    import operator as _op
+    OPS = {ast.Gt: _op.gt, ast.GtE: _op.ge, ast.Lt: _op.lt, ast.LtE: _op.le, ast.Eq: _op.eq, ast.NotEq: _op.ne}
+    for n_vals in (1, 2, 3):
+        def natom(e, n_vals=n_vals):
+            e = strip_pre(e)
+            if isinstance(e, ast.Compare) and len(e.ops) == 1 and type(e.ops[0]) in OPS:
+                l, r = strip_pre(e.left), strip_pre(e.comparators[0])
+                if isinstance(l, ast.Call) and is_name(l.func, "len") and isinstance(r, ast.Constant) and isinstance(r.value, int):
+                    return OPS[type(e.ops[0])](n_vals, r.value)
+                if isinstance(r, ast.Call) and is_name(r.func, "len") and isinstance(l, ast.Constant) and isinstance(l.value, int):
+                    return OPS[type(e.ops[0])](l.value, n_vals)
+            return None
+        outs_n = [x for x in Interp(fi, natom).run() if x.kind == "return"]
+        sl = []
+        for x in outs_n:
+            v_ = strip_pre(x.value)
+            s_ = argv(v_, 1, "slice_") if isinstance(v_, ast.Call) else None
+            s_ = strip_pre(x.deref(s_)) if isinstance(s_, ast.Name) else s_
+            sl.append(norm(s_) if s_ is not None else "?")
+        elts_txt = None
+        for x in outs_n:
+            for k_, vv in x.env.items():
+                if not k_.startswith("<") and isinstance(vv, ast.AST) and isinstance(strip_pre(vv), ast.ListComp):
+                    elts_txt = k_
+        if n_vals == 1:
+            good_n = bool(sl) and all(t_.endswith("[0]") or t_.startswith("generate_tuple(") for t_ in sl)
+        else:
+            good_n = bool(sl) and all(t_.startswith("generate_tuple(") and "[" not in t_.split("generate_tuple(")[1] for t_ in sl)
+        ctx.check(good_n, key(fi, f"{n_vals} value(s)"), f"with {n_vals} possible type name(s) the Literal is built from {sl}: every given name must be a member "
+                  "(a payload of one of the other types would be rejected by the discriminator)", fi.loc(), okmsg=f"{n_vals} value(s) -> {'single member' if n_vals == 1 else 'tuple of all members'}")
     pf = repo.func(RF + "parse_operation_field")
 
     def atom(e):
